@@ -269,6 +269,10 @@ def _gen_node(rng: random.Random, names: list, depth: int, top: bool = False) ->
     req = [k for k in keys if rng.random() < 0.4]
     if rng.random() < 0.1:
         req.append("ghost")
+    if rng.random() < 0.3:
+        # `required` naming a property this node does not declare itself: inside an allOf member it tightens a property declared by
+        # a sibling member / the $ref-ed parent (the "NewPet requires PetBase.name" idiom), elsewhere it is a stray name
+        req.extend(k for k in rng.sample(PROP_KEYS, rng.randint(1, 2)) if k not in req)
     if kind == "all":
         parts = [_gen_node(rng, names, depth - 1) if rng.random() < 0.4 else R(rng.choice(names))
                  for _ in range(rng.randint(1, 3))]
@@ -791,7 +795,60 @@ def _classify_c02(decls: list, name: str, node: dict, kind: str, fields, spec: l
             if any(("ref:" + a) in sp[k][2] for a in aliases):
                 return "alias-target-substituted"
             return "field-kind-differs"
-    return "allof-required-lost-in-cycle" if "all" in node else "required-flag-differs"
+    # F8 is about an allOf child that is parsed INSIDE its parent (i.e. while a reference cycle through it is open); a required flag
+    # lost on an acyclic allOf is a different defect and must not be absorbed by that finding
+    return "allof-required-lost-in-cycle" if ("all" in node and _reaches_itself(decls, name)) else \
+        "allof-required-flag-differs" if "all" in node else "required-flag-differs"
+
+
+def _refs_of(node) -> set:
+    out = set()
+    if isinstance(node, dict):
+        if "r" in node and isinstance(node["r"], str):
+            out.add(node["r"])
+        for v in node.values():
+            out |= _refs_of(v)
+    elif isinstance(node, list):
+        for v in node:
+            out |= _refs_of(v)
+    return out
+
+
+def _reaches_itself(decls: list, name: str) -> bool:
+    """Is there a reference cycle anywhere in the document from which `name` is reachable or on which it lies?  (What is parsed
+    'inside' what depends on the declaration order, so any cycle touching the schema's reference closure counts.)"""
+    g = {d[0]: _refs_of(d[1]) for d in decls}
+    g.update({_cls(k): v for k, v in list(g.items())})
+    seen, todo = set(), [name]
+    while todo:
+        n = todo.pop()
+        if n in seen:
+            continue
+        seen.add(n)
+        todo.extend(g.get(n, ()))
+    for n in seen:            # a cycle inside the closure?
+        stack, vis = list(g.get(n, ())), set()
+        while stack:
+            m = stack.pop()
+            if m == n:
+                return True
+            if m in vis:
+                continue
+            vis.add(m)
+            stack.extend(g.get(m, ()))
+    # ... or `name` is referenced from a cycle that is parsed first
+    for n in g:
+        if name in g.get(n, ()) or _cls(name) in g.get(n, ()):
+            stack, vis = list(g.get(n, ())), set()
+            while stack:
+                m = stack.pop()
+                if m == n:
+                    return True
+                if m in vis:
+                    continue
+                vis.add(m)
+                stack.extend(g.get(m, ()))
+    return False
 
 
 def _model_view(r: dict) -> dict:
